@@ -506,7 +506,29 @@ impl Stream for SStr {
             }
         }
     }
+    fn size_hint(&self) -> (usize, Option<usize>) {
+        leaf_size_hint(self.id)
+    }
 }
+/// size_hint of a scripted stream: the number of `Item` steps left before the next `End` is known exactly
+pub fn leaf_size_hint(id: Cid) -> (usize, Option<usize>) {
+    w(|w| {
+        let c = &w.ch[id];
+        if c.always_ready {
+            return if c.hint_mode == 0 { (0, None) } else { (usize::MAX, None) };
+        }
+        let rest = || c.script.iter().skip(c.pc).take_while(|s| **s != Step::End);
+        let rem = rest().filter(|s| **s == Step::Item).count();
+        let never = rest().any(|s| *s == Step::PendNever) || !c.script.iter().skip(c.pc).any(|s| *s == Step::End);
+        match c.hint_mode {
+            1 if !never => (rem, Some(rem)),
+            1 => (rem, None),
+            2 => (rem / 2, Some(rem + 3)),
+            _ => (0, None),
+        }
+    })
+}
+
 impl Drop for SStr {
     fn drop(&mut self) {
         mark_dropped(self.id)
@@ -544,6 +566,11 @@ impl Stream for KStr {
                 KStr::Leaf(l) => Pin::new_unchecked(l).poll_next(cx),
                 KStr::Node(n) => n.as_mut().poll_next(cx),
             }
+        }
+    }    fn size_hint(&self) -> (usize, Option<usize>) {
+        match self {
+            KStr::Leaf(l) => l.size_hint(),
+            KStr::Node(n) => n.size_hint(),
         }
     }
 }
@@ -710,6 +737,8 @@ impl<S: Stream> Stream for TapS<S> {
                 Poll::Ready(Some(take_pack()))
             }
         }
+    }    fn size_hint(&self) -> (usize, Option<usize>) {
+        self.inner.size_hint()
     }
 }
 impl<S: Stream> Drop for TapS<S> {
